@@ -23,11 +23,12 @@ def load_known():
 
 
 class Obligation:
-    __slots__ = ('rule', 'construct', 'token', 'ok', 'detail', 'where', 'path', 'npaths')
+    __slots__ = ('rule', 'construct', 'token', 'ok', 'detail', 'where', 'path', 'npaths', 'evals')
 
     def __init__(self, rule, construct, token, ok, detail, where, path, npaths):
         self.rule, self.construct, self.token, self.ok = rule, construct, token, ok
         self.detail, self.where, self.path, self.npaths = detail, where, path, npaths
+        self.evals = 1
 
     @property
     def key(self):
@@ -56,6 +57,7 @@ class Report:
         self.notes = []
         self.analysed = {}
         self.floors = {}
+        self.private_prefixes = ()
         self.rules = {}          # rule id -> one-line statement
         self.assumptions = []
         self.tables = {}
@@ -81,10 +83,13 @@ class Report:
         token = str(token)
         o = Obligation(rule, construct, token, bool(ok), detail, where, path, npaths)
         old = self.obs.get(o.key)
+        o.evals = (getattr(old, 'evals', 0) if old is not None else 0) + 1
         if old is None or (old.ok and not o.ok):
             self.obs[o.key] = o
-        elif old is not None and old.ok and o.ok and npaths:
-            old.npaths = (old.npaths or 0) + npaths
+        else:
+            old.evals = o.evals
+            if old.ok and o.ok and npaths:
+                old.npaths = (old.npaths or 0) + npaths
         return ok
 
     def note(self, msg):
@@ -124,7 +129,10 @@ class Report:
         known_keys = {(k['rule'], k['construct'], str(k['token'])): k for k in known if k.get('status') == 'known'}
         floor_errors = []
         for rid, floor in self.floors.items():
-            n = sum(1 for o in self.obs.values() if o.rule == rid)
+            # an obligation anchored in a private helper base class / mix-in of the package was evaluated once per concrete
+            # subclass (the base is code shared by them, not a node): each of those evaluations is one confirmed instance
+            n = sum((getattr(o, 'evals', 1) if any(o.construct.startswith(p) for p in self.private_prefixes) else 1)
+                    for o in self.obs.values() if o.rule == rid)
             if n < floor:
                 floor_errors.append('rule %s matched %d instance(s), below the floor of %d confirmed by hand '
                                     '(anchors moved or extraction broke)' % (rid, n, floor))
